@@ -442,3 +442,126 @@ Proof.
   revert s; induction ops as [|o ops IH]; intros s; simpl; [reflexivity|].
   unfold model_obs at 1 2. destruct (step s o) as [s' r] eqn:E. simpl. rewrite IH. reflexivity.
 Qed.
+
+(* ---------------- gateway side: the server addressed is the announced leader ---------------- *)
+Fixpoint gw_model_hist (g : gw) (ops : list gwop) : list (gwop * gwres) :=
+  match ops with
+  | [] => []
+  | o :: r => (o, snd (gw_step g o)) :: gw_model_hist (fst (gw_step g o)) r
+  end.
+
+(* announcements name their leaders (an empty leader address is not an announcement of a leader) *)
+Definition ann_ok (o : gwop) : Prop :=
+  match o with
+  | GSync _ eps => Forall (fun p : Z * string => snd p <> EmptyString) eps
+  | _ => True
+  end.
+
+Lemma zlookup_zset {A} k k' (v : A) l :
+  zlookup k (zset k' v l) = if k =? k' then Some v else zlookup k l.
+Proof.
+  induction l as [|[k0 v0] r IH]; simpl.
+  - destruct (k =? k'); reflexivity.
+  - destruct (k' =? k0) eqn:E1.
+    + simpl. destruct (k =? k') eqn:E2; [reflexivity|].
+      apply Z.eqb_eq in E1; subst k0. rewrite E2. reflexivity.
+    + destruct (k' <? k0) eqn:E3; simpl.
+      * destruct (k =? k') eqn:E2; reflexivity.
+      * destruct (k =? k0) eqn:E4.
+        -- destruct (k =? k') eqn:E2; [|reflexivity].
+           apply Z.eqb_eq in E2; apply Z.eqb_eq in E4; subst. rewrite Z.eqb_refl in E1. discriminate.
+        -- exact IH.
+Qed.
+
+Definition nonempty_vals (l : list (Z * string)) : Prop :=
+  forall k v, zlookup k l = Some v -> v <> EmptyString.
+
+Lemma zlookup_gw_set acc p k :
+  nonempty_vals acc -> snd p <> EmptyString ->
+  zlookup k (gw_set acc p) = if k =? fst p then Some (snd p) else zlookup k acc.
+Proof.
+  intros Hne Hp. unfold gw_set.
+  destruct (zlookup (fst p) acc) as [old|] eqn:E.
+  - destruct (String.eqb old (snd p)) eqn:E2.
+    + apply String.eqb_eq in E2; subst old.
+      destruct (k =? fst p) eqn:E3; [|reflexivity].
+      apply Z.eqb_eq in E3; subst k. exact E.
+    + apply zlookup_zset.
+  - destruct (String.eqb EmptyString (snd p)) eqn:E2.
+    + apply String.eqb_eq in E2. congruence.
+    + apply zlookup_zset.
+Qed.
+
+Lemma gw_set_nonempty acc p : nonempty_vals acc -> snd p <> EmptyString -> nonempty_vals (gw_set acc p).
+Proof.
+  intros Hne Hp k v H. rewrite zlookup_gw_set in H by assumption.
+  destruct (k =? fst p); [congruence | eauto].
+Qed.
+
+Lemma fold_gw_set eps : forall acc k,
+  nonempty_vals acc -> Forall (fun p : Z * string => snd p <> EmptyString) eps ->
+  nonempty_vals (fold_left gw_set eps acc) /\
+  zlookup k (fold_left gw_set eps acc) = last_in k eps (zlookup k acc).
+Proof.
+  induction eps as [|[k0 l0] r IH]; intros acc k Hne Hall; simpl.
+  - split; [exact Hne | reflexivity].
+  - inversion Hall as [|? ? Hp Hr]; subst.
+    destruct (IH (gw_set acc (k0, l0)) k (gw_set_nonempty acc (k0, l0) Hne Hp) Hr) as [H1 H2].
+    split; [exact H1|]. rewrite H2, (zlookup_gw_set acc (k0, l0) k Hne Hp). simpl. reflexivity.
+Qed.
+
+Lemma last_in_found sh a : forall found,
+  last_in sh a found = match last_in sh a None with Some l => Some l | None => found end.
+Proof.
+  induction a as [|[k l] r IH]; intros found; simpl; [reflexivity|].
+  destruct (sh =? k).
+  - rewrite (IH (Some l)). destruct (last_in sh r None); reflexivity.
+  - apply IH.
+Qed.
+
+Definition gw_inv (g : gw) (anns : list (list (Z * string))) : Prop :=
+  nonempty_vals (g_leaders g) /\ forall sh, zlookup sh (g_leaders g) = known_leader sh anns.
+
+Lemma gw_client_ok g anns u :
+  gw_inv g anns -> addressed_ok (g_n g) anns u (snd (gw_step g (GClientFor u))) = true.
+Proof.
+  intros [_ Hl]. unfold addressed_ok. simpl.
+  destruct ((1 <=? g_n g) && (g_n g <? two32))%bool eqn:En.
+  - apply andb_true_iff in En. destruct En as [E1 E2].
+    apply Z.leb_le in E1. apply Z.ltb_lt in E2.
+    unfold gw_shard_id, shard_id, wrapu32. unfold two32 in *.
+    destruct (g_n g =? 0) eqn:E0; [apply Z.eqb_eq in E0; lia|].
+    rewrite (Z.mod_small (g_n g) 4294967296) by lia. rewrite E0.
+    rewrite <- Hl. destruct (zlookup _ (g_leaders g)); simpl; [apply String.eqb_refl | reflexivity].
+  - destruct (g_n g =? 0) eqn:E0; [|reflexivity].
+    unfold gw_shard_id. rewrite E0. reflexivity.
+Qed.
+
+Lemma gw_hist_inv ops : forall g anns,
+  Forall ann_ok ops -> gw_inv g anns -> gw_hist_ok (g_n g) anns (gw_model_hist g ops) = true.
+Proof.
+  induction ops as [|o r IH]; intros g anns Hall Hinv; [reflexivity|].
+  inversion Hall as [|? ? Ho Hr]; subst.
+  destruct o as [n eps| |u]; cbn [gw_model_hist gw_hist_ok].
+  - cbn [gw_step fst snd]. apply (IH {| g_n := n; g_leaders := fold_left gw_set eps (g_leaders g) |} (eps :: anns) Hr).
+    destruct Hinv as [Hne Hl]. split; cbn [g_leaders].
+    + apply (proj1 (fold_gw_set eps (g_leaders g) 0 Hne Ho)).
+    + intros sh. rewrite (proj2 (fold_gw_set eps (g_leaders g) sh Hne Ho)).
+      rewrite last_in_found, Hl. reflexivity.
+  - cbn [gw_step fst snd]. apply IH; assumption.
+  - assert (E : fst (gw_step g (GClientFor u)) = g).
+    { simpl. destruct (gw_shard_id u (g_n g)); [destruct (zlookup _ _)|]; reflexivity. }
+    rewrite E, (gw_client_ok g anns u Hinv). cbn [andb]. apply IH; assumption.
+Qed.
+
+Theorem gw_follows ops : Forall ann_ok ops -> gw_hist_ok 0 [] (gw_model_hist gw_init ops) = true.
+Proof.
+  intros H. apply (gw_hist_inv ops gw_init [] H).
+  split; [intros k v Hk; discriminate | intros sh; reflexivity].
+Qed.
+
+Lemma gw_model_hist_run g ops : map snd (gw_model_hist g ops) = gw_run g ops.
+Proof.
+  revert g; induction ops as [|o r IH]; intros g; simpl; [reflexivity|].
+  destruct (gw_step g o) as [g' x] eqn:E. simpl. rewrite IH. reflexivity.
+Qed.
